@@ -40,9 +40,9 @@ fn elf_flags_to_prot(flags: u32) -> u32 {
     proc_flags
 }
 
-fn round_up_to_page_size(size: u64) -> u64 {
-    (size + 0xfff) & !0xfff
-}
+/// Upper bound for the memory size of a single segment. Sizes beyond this are not meaningful
+/// for the emulator and would only make the zero-fill allocation abort the process.
+const MAX_SEGMENT_SIZE: u64 = 0x4000_0000;
 
 // TODO: System V ABI mentions %rdx should have "a function pointer that the application should register with atexit" at process entry
 
@@ -193,8 +193,17 @@ impl Axecutor {
                     // boundary would otherwise reach into the following page and collide with
                     // the segment that lives there.
                     let in_page_offset = segment.p_vaddr & 0xfff;
-                    let memsz =
-                        round_up_to_page_size(segment.p_memsz + in_page_offset) - in_page_offset;
+                    let memsz = match segment.p_memsz.checked_add(in_page_offset + 0xfff) {
+                        Some(end) if segment.p_memsz <= MAX_SEGMENT_SIZE => {
+                            (end & !0xfff) - in_page_offset
+                        }
+                        _ => {
+                            return Err(AxError::from(format!(
+                                "ELF: segment at {:#x} has unsupported memory size {:#x}",
+                                segment.p_vaddr, segment.p_memsz
+                            )));
+                        }
+                    };
 
                     if memsz == segment.p_filesz {
                         axecutor.mem_init_area_named(
